@@ -59,6 +59,12 @@ func forall(lo, hi int, f func(int) bool) bool {
 //@   ensures len(self.set) == old(len(self.set)) + ite(result1, 0, 1)
 //@   ensures self.bytes == old(self.bytes) + len(arg0) - ite(result1, len(result0), 0)
 
+//@ func ext:btree.BTreeG.Max
+//@   trusted
+//@   modifies nothing
+//@   ensures result1 == (len(self.set) > 0)
+//@   ensures result1 ==> has(self.set, string(result0)) && forall(func(k string) bool { return has(self.set, k) ==> k <= string(result0) })
+
 //@ func ext:btree.BTreeG.DeleteMin
 //@   trusted
 //@   modifies self.set, self.bytes
@@ -68,6 +74,12 @@ func forall(lo, hi int, f func(int) bool) bool {
 //@   ensures result1 ==> forall(func(k string) bool { return has(self.set, k) == (has(old(self.set), k) && k != string(result0)) })
 //@   ensures result1 ==> len(self.set) == old(len(self.set)) - 1 && self.bytes == old(self.bytes) - len(result0)
 //@   ensures !result1 ==> same(self.set, old(self.set)) && self.bytes == old(self.bytes)
+
+//@ func ext:btree.BTreeG.Max
+//@   trusted
+//@   modifies nothing
+//@   ensures result1 == (len(self.set) > 0)
+//@   ensures result1 ==> has(self.set, string(result0)) && forall(func(k string) bool { return has(self.set, k) ==> k <= string(result0) })
 
 //@ func ext:btree.BTreeG.DeleteMax
 //@   trusted
@@ -84,6 +96,12 @@ func forall(lo, hi int, f func(int) bool) bool {
 //@   modifies nothing
 //@   ensures result1 == (len(self.set) > 0)
 //@   ensures result1 ==> has(self.set, string(result0)) && forall(func(k string) bool { return has(self.set, k) ==> string(result0) <= k })
+
+//@ func ext:btree.BTreeG.Max
+//@   trusted
+//@   modifies nothing
+//@   ensures result1 == (len(self.set) > 0)
+//@   ensures result1 ==> has(self.set, string(result0)) && forall(func(k string) bool { return has(self.set, k) ==> k <= string(result0) })
 
 //@ func ext:btree.BTreeG.Delete
 //@   trusted
@@ -135,6 +153,13 @@ func forall(lo, hi int, f func(int) bool) bool {
 //@   modifies nothing
 //@   ensures result1 == (len(s.tree.set) > 0)
 //@   ensures result1 ==> has(s.tree.set, string(result0)) && forall(func(k string) bool { return has(s.tree.set, k) ==> string(result0) <= k })
+
+//@ func SortedCache.PeekLast
+//@   property C19 C10
+//@   requires s.tree != nil
+//@   modifies nothing
+//@   ensures result1 == (len(s.tree.set) > 0)
+//@   ensures result1 ==> has(s.tree.set, string(result0)) && forall(func(k string) bool { return has(s.tree.set, k) ==> k <= string(result0) })
 
 //@ func SortedCache.Delete
 //@   property C19 C10
